@@ -75,10 +75,21 @@ def scpd(vars_: List[Tuple[str, str]]) -> str:
             f"<dataType>string</dataType></stateVariable>{sv}</serviceStateTable></scpd>")
 
 
+# how a renderer spells its serviceId values (services are located by service TYPE; the serviceId is the device's business)
+SID_STYLES = {
+    "std": lambda sid: sid,
+    "suffix": lambda sid: sid + "ServiceID",
+    "version": lambda sid: sid + "_1",
+    "domain": lambda sid: sid.replace("urn:upnp-org:", "urn:vendor-example-com:"),
+    "case": lambda sid: sid.replace("serviceId", "serviceid").lower(),
+    "prefix": lambda sid: sid.replace("serviceId:", "serviceId:X_"),
+}
+
+
 class DmrRequester:
-    def __init__(self) -> None:
+    def __init__(self, sid_style: str = "std") -> None:
         svcs = "".join(
-            f"<service><serviceType>{ty}</serviceType><serviceId>{sid}</serviceId><SCPDURL>/{k}.xml</SCPDURL>"
+            f"<service><serviceType>{ty}</serviceType><serviceId>{SID_STYLES[sid_style](sid)}</serviceId><SCPDURL>/{k}.xml</SCPDURL>"
             f"<controlURL>/c/{k}</controlURL><eventSubURL>/e/{k}</eventSubURL></service>" for k, (ty, sid, _) in SERVICES.items())
         self.files = {BASE + "/d.xml": (
             '<?xml version="1.0"?><root xmlns="urn:schemas-upnp-org:device-1-0"><specVersion><major>1</major><minor>0</minor>'
@@ -107,13 +118,14 @@ class FakeNotifyServer:
         pass
 
 
-_ENV: Dict[str, Any] = {}
+_ENVS: Dict[str, Dict[str, Any]] = {}
+_TEE: Dict[str, Any] = {}
 
 
-def env() -> Dict[str, Any]:
-    """the MediaRenderer profile (built once per process), the tee handler and the callback log"""
-    if _ENV:
-        return _ENV
+def env(sid_style: str = "std") -> Dict[str, Any]:
+    """the MediaRenderer profile (one per serviceId style and process), the tee handler and the callback log"""
+    if sid_style in _ENVS:
+        return _ENVS[sid_style]
     import logging
 
     from async_upnp_client.client_factory import UpnpFactory
@@ -123,7 +135,7 @@ def env() -> Dict[str, Any]:
     from async_upnp_client.event_handler import UpnpEventHandler
 
     loop = asyncio.new_event_loop()
-    req = DmrRequester()
+    req = DmrRequester(sid_style)
     device = loop.run_until_complete(UpnpFactory(req).async_create_device(BASE + "/d.xml"))
     handler = UpnpEventHandler(FakeNotifyServer(), req)  # type: ignore[arg-type]
     prof = dlna.DmrDevice(device, handler)
@@ -131,26 +143,28 @@ def env() -> Dict[str, Any]:
     prof.on_event = lambda service, svars: log.append([sv.name for sv in svars])
     # the normal event path: subscribing installs DmrDevice._on_event on every service and registers the SIDs
     loop.run_until_complete(prof.async_subscribe_services())
-    base_cls = dlna.DlnaDmrEventContentHandler
-    tee: Dict[str, Any] = {"events": [], "handler": None}
+    if not _TEE:
+        base_cls = dlna.DlnaDmrEventContentHandler
+        _TEE.update(events=[], handler=None)
+        tee = _TEE
 
-    class TeeHandler(base_cls):  # type: ignore[misc,valid-type]
-        def __init__(self) -> None:
-            super().__init__()
-            tee["handler"] = self
-            tee["events"] = []
+        class TeeHandler(base_cls):  # type: ignore[misc,valid-type]
+            def __init__(self) -> None:
+                super().__init__()
+                tee["handler"] = self
+                tee["events"] = []
 
-        def startElement(self, name, attrs):  # noqa: N802
-            tee["events"].append(("S", name, sorted(attrs.items())))
-            super().startElement(name, attrs)
+            def startElement(self, name, attrs):  # noqa: N802
+                tee["events"].append(("S", name, sorted(attrs.items())))
+                super().startElement(name, attrs)
 
-        def endElement(self, name):  # noqa: N802
-            tee["events"].append(("E", name, None))
-            super().endElement(name)
+            def endElement(self, name):  # noqa: N802
+                tee["events"].append(("E", name, None))
+                super().endElement(name)
 
-    dlna.DlnaDmrEventContentHandler = TeeHandler  # type: ignore[misc]
-    _ENV.update(device=device, prof=prof, log=log, tee=tee, dlna=dlna, loop=loop, handler=handler)
-    return _ENV
+        dlna.DlnaDmrEventContentHandler = TeeHandler  # type: ignore[misc]
+    _ENVS[sid_style] = dict(device=device, prof=prof, log=log, tee=_TEE, dlna=dlna, loop=loop, handler=handler)
+    return _ENVS[sid_style]
 
 
 # ---------------------------------------------------------------------------------------------------------------
@@ -206,7 +220,7 @@ def gen_doc(rng: random.Random, svc_key: str) -> Dict[str, Any]:
     root = rng.choice([[], [["xmlns", "urn:schemas-upnp-org:metadata-1-0/RCS/"]],
                        [["xmlns", "urn:schemas-upnp-org:metadata-1-0/AVT/"], ["xmlns:rcs", "urn:x"], ["xmlns:avt", "urn:y"]]])
     return {"kind": "doc", "svc": svc_key, "root": root, "ops": insts, "style": rng.randrange(0, 2**30),
-            "via": "notify"}
+            "via": "notify", "sid": rng.choice(["std", "std"] + sorted(SID_STYLES))}
 
 
 def esc(rng: random.Random, s: str, quote: str) -> str:
@@ -334,7 +348,8 @@ def opt_tok(s: Optional[str]) -> str:
 
 
 def run_value(cid: str, recipe: Dict[str, Any], text: Optional[str], doc: Optional[Dict[str, Any]]) -> Case:
-    e = env()
+    e = env(recipe.get("sid", "std"))
+    tags_sid = "sid:" + recipe.get("sid", "std")
     svc_key = recipe.get("svc", "RC")
     ty, _, vars_ = SERVICES[svc_key]
     svc = e["device"].services[ty]
@@ -346,7 +361,7 @@ def run_value(cid: str, recipe: Dict[str, Any], text: Optional[str], doc: Option
     lines = [f"var {tok_str(n)} {tok_str(v)}" for n, v in init.items()]
     others = [sv for o in e["device"].services.values() if o is not svc for sv in o.state_variables.values()]
     others_before = [sv.value_unchecked for sv in others]
-    tags = set()
+    tags = {tags_sid}
     nontrivial = False
     if doc is not None:
         lines.append(f"doc {fmt_attrs(sorted(tuple(p) for p in doc['root']))}")
@@ -440,6 +455,11 @@ CORPUS: List[Dict[str, Any]] = [
     {"kind": "doc", "svc": "RC", "root": [["xmlns", "urn:schemas-upnp-org:metadata-1-0/RCS/"]], "style": 11, "via": "notify",
      "ops": [{"id": "0", "entries": [E("Mute", "1", "Master"), E("PresetNameList", "a&b<c>\"'\n é", None, "rcs")]}]},
     {"kind": "empty", "svc": "AVT", "via": "notify"},
+    # a renderer with vendor-style serviceId values: located by service type, expanded all the same
+    {"kind": "doc", "svc": "RC", "root": [], "style": 12, "sid": "suffix",
+     "ops": [{"id": "0", "entries": [E("Volume", "9", "Master"), E("Mute", "1")]}]},
+    {"kind": "doc", "svc": "AVT", "root": [], "style": 13, "sid": "domain",
+     "ops": [{"id": "0", "entries": [E("TransportState", "PLAYING")]}]},
     # F19b: an instance whose id is the empty string is not instance 0
     {"kind": "doc", "svc": "RC", "root": [], "style": 7, "ops": [{"id": "", "entries": [E("Volume", "6", "Master")]}]},
     # F19a: declared encodings (styles 3, 9, 5 render iso-8859-1, x-unknown, utf-16; the value is non-ASCII)
